@@ -72,6 +72,12 @@ def prev_program(name):
     elif name == "mosek":
         c = models.build(_spec("lmi"))
         solving.solve(c.pep, backend="mosek")
+    elif name == "opts":
+        # solves that are given solver options which later programs do not repeat
+        c = models.build(_spec("gd"))
+        solving.solve(c.pep, solver="SCS", extra={"max_iters": 3, "eps": 1e-1})
+        c = models.build(_spec("quad"))
+        solving.solve(c.pep, solver=None)
     elif name == "nulls":
         from PEPit.point import null_point
         from PEPit.expression import null_expression
@@ -87,7 +93,7 @@ def prev_program(name):
 
 
 HISTORY_ALPHABET = ["gd", "block", "quad", "linop", "comp", "lmi", "qg", "abandon", "unbounded", "raises", "twice", "heur",
-                    "mosek", "nulls"]
+                    "mosek", "nulls", "opts"]
 OBSERVED = ["gd", "block", "quad", "lmi", "comp", "nullsum", "lmi@mosek", "block@mosek", "qg", "support", "gd+logdet2", "lmi+trace",
             "block+logdet1@mosek"]
 
@@ -119,6 +125,17 @@ def observed_program(name, verbose):
     w = c.pep.wrapper
     calls = getattr(w, "rec_calls", [])
     dump["names"] = [str(cl[1].get_name()) for cl in calls]
+    # the multipliers attached to the constraints sent (bit-exact: same input, deterministic solver)
+    hd = hashlib.sha256()
+    nd = 0
+    for cl in calls:
+        try:
+            hd.update(np.ascontiguousarray(np.asarray(cl[1].eval_dual(), dtype=float)).tobytes())
+            nd += 1
+        except Exception as e:
+            hd.update(type(e).__name__.encode())
+    dump["duals_sha256"] = hd.hexdigest()
+    dump["duals_read"] = nd
     dump["n_sent"] = len(calls)
     if backend == "cvxpy" and getattr(w, "prob", None) is not None:
         import cvxpy as cp
@@ -232,7 +249,7 @@ def _judge_once(history, prog, verbose, ref, pad):
         return [("history-dependent:raises:%s" % prog, "B raised %s after history %s" % (got["harness_exception"], list(history)))], got
     d = diff(ref, got)
     if d:
-        what = "solver-input" if any(k in d for k in ("solver_input_sha256", "mosek_log_sha256", "solver_input_shapes", "mosek_calls", "n_sent")) \
+        what = "multipliers" if d == ["duals_sha256"] else "solver-input" if any(k in d for k in ("solver_input_sha256", "mosek_log_sha256", "solver_input_shapes", "mosek_calls", "n_sent")) \
             else "names" if "names" in d else "result"
         return [("history-dependent:%s:%s" % (what, prog),
                  "after history %s (verbose=%d) program %s differs from its run in a fresh interpreter in %s: %s vs %s"
